@@ -10,7 +10,7 @@ mod verif_probe_store_c09 {
     #[derive(Clone)]
     struct PUpd;
     impl TrackAttributesUpdate<PAttrs> for PUpd {
-        fn apply(&self, a: &mut PAttrs) -> Result<()> { a.v += 1; Ok(()) }
+        fn apply(&self, a: &mut PAttrs) -> Result<()> { a.v += 1; if a.fail_merge { Err(anyhow::anyhow!("apply rejected")) } else { Ok(()) } }
     }
     impl TrackAttributes<PAttrs, f32> for PAttrs {
         type Update = PUpd;
@@ -109,6 +109,20 @@ mod verif_probe_store_c09 {
             let via_add = peek(&s2, 7);
             let built = s2.new_track(7).observation((0, Some(1.5), None, Some(PUpd))).build().unwrap();
             if via_add != Some(view(&built)) { failures.push(format!("{}: add() on a missing id created {:?}, building externally gives {:?}", ctx, via_add, view(&built))); }
+            // a rejected FIRST observation of an unknown id must not leave a track behind (as a failed external build would not)
+            for reject_in_optimize in [false, true] {
+                let mut s3: S = TrackStore::new(PMetric::default(), PAttrs { v: 0, fail_merge: !reject_in_optimize }, NoopNotifier, shards);
+                let stats0 = s3.shard_stats();
+                let r = s3.add(9, 0, Some(if reject_in_optimize { -666.0 } else { 1.0 }), None, Some(PUpd));
+                if r.is_ok() { failures.push(format!("{}: add() with a rejected first observation reports Ok", ctx)); }
+                if peek(&s3, 9).is_some() || s3.shard_stats() != stats0 {
+                    failures.push(format!("{}: add() on a missing id whose first observation is rejected ({}) left a track behind: {:?}", ctx, if reject_in_optimize { "optimize" } else { "apply" }, peek(&s3, 9)));
+                }
+            }
+            // a rejected observation for an EXISTING id leaves the stored track unchanged
+            let before7 = peek(&s2, 7);
+            if s2.add(7, 0, Some(-666.0), None, Some(PUpd)).is_ok() { failures.push(format!("{}: add() with a failing optimize on an existing id reports Ok", ctx)); }
+            if peek(&s2, 7) != before7 { failures.push(format!("{}: failed add() changed the stored track", ctx)); }
             s2.add(7, 0, Some(2.5), None, Some(PUpd)).unwrap();
             let mut built2 = built.clone(); built2.add_observation(0, Some(2.5), None, Some(PUpd)).unwrap();
             if peek(&s2, 7) != Some(view(&built2)) { failures.push(format!("{}: add() on an existing id differs from add_observation on the track", ctx)); }
